@@ -50,6 +50,9 @@ def shards(tier, seed):
                                 "factors": "dyadic"})
         out.append({"nsched": 4, "K": 3, "fails": [0, 0, 0], "recomp_max": 2, "factors": "dyadic"})
         out.append({"nsched": 3, "K": 3, "fails": [0, 1, 1], "recomp_max": 1, "factors": "default"})
+        # late failure after a scheduled time was passed (stale schedule bookkeeping)
+        out.insert(0, {"nsched": 3, "K": 4, "fails": [0, 0, 0, 1], "recomp_max": 2, "factors": "dyadic"})
+        out.insert(1, {"nsched": 3, "K": 4, "fails": [0, 0, 1, 0], "recomp_max": 2, "factors": "dyadic"})
     else:
         for nsched in (2, 3, 4):
             K = 5
